@@ -1,6 +1,6 @@
 /* C08 / C18: mtbl_writer_init / mtbl_writer_init_fd (real writer.c): exclusive create, failure leaves nothing behind,
  * the writer starts at the descriptor's current offset (foreign prefix) with zeroed statistics. */
-#include "/repo/mtbl/writer.c"
+#include "mtbl/writer.c"
 #include "spec/ghost.h"
 #include <stdarg.h>
 static int vg_open_flags; static unsigned vg_open_calls, vg_dup_calls, vg_close_calls; static int vg_open_ret; static off_t vg_off; static int vg_fds;
